@@ -20,7 +20,7 @@ from . import c04
 
 LEVEL = "model_checking"
 DEPTH = {"quick": 4, "thorough": 5}
-CAP = {"quick": 4000, "thorough": 30000}
+CAP = {"quick": 4000, "thorough": 12000}
 
 DOC_SEEDS = [
     "4x + 2x", "2x + 3x + 4", "(x + 1) * (x + 2)", "x * x * x", "2 * 3 * x", "4 - 2x + 6", "x / 2 + 3", "(2 + 3) * x^2",
